@@ -122,6 +122,20 @@ func CheckC08(v *View, st Stats) []Violation {
 	if t := world.DecodeRevisionTemplate(rev); t == nil || !TemplateEqual(t, &s.Spec.Template) {
 		out = append(out, viol("C08", "update-revision-does-not-mirror-template", "status.updateRevision=%s records a template that differs from the set's current template", upd))
 	}
+	// ... and be the newest of the set's revisions: a re-used earlier revision is renumbered above all others
+	// (judged only when the reconcile saw the revisions the API holds, and nobody else changed them meanwhile)
+	if v.R.RevCacheFresh && !v.Deleting {
+		var newest *appsv1.ControllerRevision
+		for _, x := range v.RevsAfter {
+			if newest == nil || revLess(newest, x) {
+				newest = x
+			}
+		}
+		st.Inc("newest_revision_postconditions_checked")
+		if newest != nil && newest.Name != rev.Name && !bytes.Equal(newest.Data.Raw, rev.Data.Raw) {
+			out = append(out, viol("C08", "update-revision-not-the-newest", "after a successful reconcile the update revision %s (number %d) is not the newest of the set's revisions: %s has number %d", rev.Name, rev.Revision, newest.Name, newest.Revision))
+		}
+	}
 	restored, err := statefulset.ApplyRevision(s, rev)
 	if err != nil {
 		out = append(out, viol("C08", "apply-revision-failed", "ApplyRevision(set, %s): %v", upd, err))
